@@ -570,7 +570,6 @@ class HealpixLandscape(StokesLandscape):
 
     def tree_flatten(self):  # type: ignore[no-untyped-def]
         aux_data = {
-            'shape': self.shape,
             'dtype': self.dtype,
             'stokes': self.stokes,
             'nside': self.nside,
@@ -608,7 +607,6 @@ class FrequencyLandscape(HealpixLandscape):
 
     def tree_flatten(self):  # type: ignore[no-untyped-def]
         aux_data = {
-            'shape': self.shape,
             'dtype': self.dtype,
             'stokes': self.stokes,
             'nside': self.nside,
